@@ -12,7 +12,8 @@ exit 2: undecided (extraction anchor lost, unsupported construct, compile error 
 """
 import os, sys, json, time, re, fnmatch, hashlib, subprocess, argparse
 sys.path.insert(0, os.path.dirname(os.path.abspath(__file__)))
-import extract, runverus, runkani, obligations
+import extract
+import rewritten_tests, runverus, runkani, obligations
 
 VERIF = extract.VERIF
 EVID = os.environ.get('VERIF_EVIDENCE_DIR') or os.path.join(VERIF, 'evidence')
@@ -187,10 +188,7 @@ def main():
         text, info = extract.generate()
     except Exception as e:
         return undecided('extraction-failed:' + str(e).replace(' ', '_')[:200])
-    extra = []
-    if a.tier == 'thorough' and seed:
-        extra = ['-V', 'smt-option=smt.random_seed=%d' % seed] if False else []
-    run = runverus.run_verus_on_text(text, 'coset_verus', extra)
+    run = runverus.run_verus_on_text(text, 'coset_verus', [])
     cls = runverus.classify(run)
     # Kani harnesses do not depend on the Verus run: a failing complete harness is a violation with a concrete counterexample
     kani = None
@@ -254,6 +252,27 @@ def main():
     def ok(n, k):
         return (not tab[n]['success']) if k == 'nec' else tab[n]['success']
     failed = [(n, k) for n, k in obl if not ok(n, k)]
+    # Solver seeds.  A proof found under any Z3 seed is a proof, so an obligation that fails under the default seed is
+    # retried under two more before it is reported (protects against proof instability after harmless edits); the
+    # thorough tier always runs them and records which obligations change outcome.  A necessity copy must fail under all.
+    stability = None
+    if a.tier == 'thorough' or any(not n.startswith('kani:') and k != 'nec' for n, k in failed):
+        stability = {'seeds': [], 'changed_outcome': []}
+        for sd in (seed * 2 + 1, seed * 2 + 2):
+            r2 = runverus.run_verus_on_text(text, 'coset_verus', ['--smt-option', 'smt.random_seed=%d' % sd])
+            if runverus.classify(r2) == 'tool-error':
+                continue
+            t2 = runverus.function_table(r2)
+            stability['seeds'].append({'seed': sd, 'wall_s': r2['wall_s'], 'cached': r2['cached']})
+            for n, k in obl:
+                if n.startswith('kani:') or n not in t2:
+                    continue
+                if t2[n]['success'] != tab[n]['success']:
+                    if n not in stability['changed_outcome']:
+                        stability['changed_outcome'].append(n)
+                    if t2[n]['success']:
+                        tab[n] = dict(t2[n], proved_under_seed=sd)
+        failed = [(n, k) for n, k in obl if not ok(n, k)]
     rlimit_hit = [d for d in run['diagnostics'] if 'rlimit' in d['message'] or 'Resource limit' in d['message']]
     discharged = len(obl) - len(failed)
     per = [{'obligation': n, 'kind': k, 'backend': ('kani/cbmc complete' if k == 'kani' else 'kani/cbmc ' + k[5:] if k.startswith('kani') else 'verus/z3'), 'discharged': ok(n, k), 'expect': ('fail' if k == 'nec' else 'pass'),
@@ -269,6 +288,7 @@ def main():
                         'verus_wall_s': run['wall_s'], 'cached': run['cached']},
         'inputs_sha256': info['inputs'], 'generated_sha256': info['generated_sha256'],
         'rewrites_applied': info['rewrites'], 'merge': info['merge'],
+        'solver_stability': stability,
         'samples': [{'obligation': n, 'kind': k} for n, k in obl[:5]],
         'bounded': [n for n, k in obl if k.startswith('kani-bounded')] + ['replay:' + m for m in getattr(obligations, 'MEASUREMENTS', {}).get(pid, [])],
         'bounded_measurements': measurements,
@@ -311,6 +331,15 @@ def main():
         print('VIOLATION property=%s replay=%s%s' % (pid, rpath, '' if cex else ' no-failing-input-found'))
         return 1
     if a.tier == 'thorough':
+        # extraction validation: the rewritten source (what Verus is given, minus ghost text) must still pass the repository's tests
+        try:
+            rt = rewritten_tests.run()
+        except Exception as e:
+            rt = {'compiled': False, 'failed': -1, 'rc': -1, 'tail': 'exception: %s' % e}
+        cov['extraction_validation'] = rt
+        cov['bounded'] += ['rewritten-source-test-suite']
+        if not (rt.get('compiled') and rt.get('failed') == 0 and rt.get('rc') == 0):
+            return undecided('rewritten-source-does-not-pass-the-repository-tests', cov)
         probes = getattr(obligations, 'PROBES', {}).get(pid, [])
         if probes:
             fi = find_failing_input(pid)
